@@ -74,7 +74,68 @@ def env_wf(model):
     return None
 
 
+def enum_name_grid(ctx):
+    """a fixed grid: an enum expected at the root, in a list, as a dict value, in a Union with str / bool;
+    scalars that are member names, near-misses, and names that Python's attribute lookup would find"""
+    import loadgen as G
+    yaml, yatiml = L.setup()
+    S = G.S
+    en = dict(name='Colour', bases=[], registered=True, kind='enum', members=['red', 'green', 'true'])
+    words = ['red', 'true', 'blue', '__doc__', '__module__', '__members__', 'mro', '__class__', 'name', 'value',
+             '_value_', '__init__', '__dict__', 'Red', 'RED', '']
+    e = ('cls', 'Colour')
+    for w in words:
+        sw = S(w, w == '')
+        for t, doc in ((e, sw), (('seq', 'list', e), ('q', [S('red'), sw], None)),
+                       (('map', 'dict', ('str',), e), ('m', [(S('k'), sw)], None)),
+                       (('union', [e, ('int',)]), sw), (('union', [('bool',), e]), sw)):
+            try:
+                c = L.build_case(ctx.rng, yaml, yatiml, [en], t, doc, ('enum-name-grid',))
+                L.run_case(c, yaml)
+            except Exception as ex:  # noqa
+                ctx.count('gen_error:' + type(ex).__name__)
+                continue
+            ctx.count('enum_name_grid')
+            yield c
+
+
+def same_named_classes(ctx):
+    """two different classes with the same __name__ registered with one load function (v1.Settings and
+    v2.Settings): whatever the load does, it never returns an object of the class that was not asked for"""
+    yaml, yatiml = L.setup()
+    from typing import Dict, List
+
+    def mk(fields):
+        src = 'def __init__(self, {}) -> None:\n{}'.format(
+            ', '.join(f + ': int' for f in fields), ''.join('    self.{0} = {0}\n'.format(f) for f in fields))
+        ns = {}
+        exec(src, ns)
+        return type('Settings', (), {'__init__': ns['__init__']})
+    for f1, f2 in ((['a'], ['a']), (['a'], ['a', 'b']), (['a', 'b'], ['a'])):
+        for order in (0, 1):
+            s1, s2 = mk(f1), mk(f2)
+            regs = [s1, s2] if order == 0 else [s2, s1]
+            for ty, text in ((s1, '{a: 1}'), (List[s1], '[{a: 1}, {a: 2, b: 3}]'), (Dict[str, s1], '{k: {a: 1}}'),
+                             (List[s1], '[{a: 1, b: 2}]')):
+                try:
+                    v = yatiml.load_function(ty, *regs)(text)
+                    out = ('ok', v)
+                except (yatiml.RecognitionError, yaml.YAMLError):
+                    out = ('rec', None)
+                except Exception as ex:  # noqa
+                    out = ('other', type(ex).__name__)
+                ctx.case(('same-named', repr(ty), text, order, tuple(f1), tuple(f2)), nontrivial=True)
+                ctx.count('same_named:' + out[0])
+                if out[0] == 'ok':
+                    vals = [v] if not isinstance(v, (list, dict)) else (list(v.values()) if isinstance(v, dict) else v)
+                    if any(type(x) is not s1 for x in vals):
+                        ctx.violation('load_function({}, ...) over two classes called Settings returns an instance of '
+                                      'the other class: {!r}'.format(getattr(ty, '__name__', ty), [type(x) is s1 for x in vals]),
+                                      dict(key='same-named-class', text=text))
+
+
 def explore(ctx):
+    same_named_classes(ctx)
     cases = LC.CaseBuffer(ctx)
     import loadgen as G
     yaml, yatiml = L.setup()
@@ -83,9 +144,9 @@ def explore(ctx):
                              LC.alias_across_types(ctx, ctx.budget(40, 800)),
                              LC.untyped_regions(ctx, ctx.budget(150, 3000)),
                              LC.class_key_faults(ctx, ctx.budget(200, 4000)),
-                             LC.strlike_key_grid(ctx)):
+                             LC.strlike_key_grid(ctx), enum_name_grid(ctx)):
         if c.doc is not None and ctx.rng.random() < 0.3 and not (
-                c.desc and c.desc[0] in ('alias-across-types', 'untyped-region', 'class-key-fault', 'strlike-key-grid')):
+                c.desc and c.desc[0] in ('alias-across-types', 'untyped-region', 'class-key-fault', 'strlike-key-grid', 'enum-name-grid')):
             # tags at arbitrary nodes, keys included
             doc = c.doc
             for _ in range(ctx.rng.randint(1, 3)):
